@@ -489,6 +489,56 @@ def timer_obligations(w, r, ob):
 
 
 # ----------------------------------------------------------------------------------------------------------------------
+# step items
+
+def run_in_step(w):
+    """in_step on a component event: the handlers themselves (decided above) are uninterpreted here, only the item pushed matters"""
+    it, sem, d = w.it, w.sem, w.decls
+    f = w.dump.find_impl_method("in_step", r"_1: &mut RecipeCollector<'_, '_>, _2: parser::Event<'_>, _3: &mut Vec<model::Item>")
+    it.abstract_fns += [r"^RecipeCollector::<'_, '_>::(ingredient|cookware|timer)$"]
+    ev_names = [v for v, _ in d.enums["Event"]]
+    comp = [ev_names.index(x) for x in ("Ingredient", "Cookware", "Timer")]
+    sem.decls.append("(declare-const ev_kind Int)")
+    payload = {n: Opaque("located %s of the event" % n.lower()) for n in ("Ingredient", "Cookware", "Timer")}
+    old_item = Opaque("an earlier item")
+    col = w.collector("Timer", [Opaque("x")], "0")
+    outs = []
+    for n in payload:          # one run per component kind (the text arm, with its inline-quantity scan, is outside this claim)
+        k = ev_names.index(n)
+        ev = Enum("Event", SV("isize", str(k)), {n: Agg("Event::" + n, {"0": payload[n]})}, ev_names)
+        for o in it.run(f, [col, ev, VecVal([old_item])]):
+            o.pc = ["(= ev_kind %d)" % k] + list(o.pc)
+            outs.append(o)
+    return dict(outs=outs, old_item=old_item, ev_names=ev_names, payload=payload)
+
+
+def in_step_obligations(w, r, ob):
+    it = w.it
+    inames = [v for v, _ in w.decls.enums.lookup("Item", "model")]
+    for o in r["outs"]:
+        pc = mcheck.pc_assert(o.pc)
+        if o.kind == "panic":
+            ob.add("in_step(): never panics on a component event: %s" % re.sub(r"\s+", " ", str(o.msg))[:60], pc, "true")
+            continue
+        if o.kind != "return":
+            continue
+        items = it.deref(o.env["_3"], o.env)
+        ok = isinstance(items, VecVal) and len(items.items) == 2 and items.items[0] is r["old_item"] and isinstance(items.items[1], Enum) \
+            and re.match(r"^\d+$", items.items[1].discr.expr)
+        cond = "false"
+        if ok:
+            new = items.items[1]
+            nm = inames[int(new.discr.expr)]
+            idx = new.variants[nm].fields.get("0")
+            # the index stored is what the handler of that very kind returned for that very event payload
+            handler = {"Ingredient": "ingredient", "Cookware": "cookware", "Timer": "timer"}.get(nm)
+            from_handler = handler is not None and isinstance(idx, Opaque) and idx.what.endswith("::" + handler) and idx.args and idx.args[-1] is r["payload"][nm]
+            cond = "(= ev_kind %d)" % r["ev_names"].index(nm) if from_handler else "false"
+        ob.add("in_step(): a component event appends exactly one item of that kind whose index is the one its handler returned "
+               "(so step items address existing components, in document order)", pc, "(not %s)" % cond)
+
+
+# ----------------------------------------------------------------------------------------------------------------------
 # driver shared by the property checks
 
 def analysis_part(run, scr, nat, prop):
@@ -526,6 +576,10 @@ def analysis_part(run, scr, nat, prop):
     timer_obligations(w, run_timer(w), ob)
     batches.append(("an-timer", w, ob))
     abstracted |= set(getattr(w.it, "abstracted_calls", ()))
+    w = World(dump, decls, "s", max_paths=20000)
+    ob = Obligations()
+    in_step_obligations(w, run_in_step(w), ob)
+    batches.append(("an-instep", w, ob))
 
     def on_sat(name):
         def cb(model, ob_, item):
@@ -586,7 +640,7 @@ def judge_structure(nat, profile="debug"):
 
 # which of the claims each property's check discharges (all of them explore the same paths)
 CLAIMS = {
-    "C06": r"appended once|marked as a reference|points at an earlier|same name|reference modifier|has a name exactly when",
+    "C06": r"appended once|marked as a reference|points at an earlier|same name|reference modifier|has a name exactly when|appends exactly one item",
     "C07": r"diagnostic|error is reported|primary label|note on a reference|raises no error",
     "C08": r"stored quantity|written quantity is stored",
     "C03": r"never panics",
